@@ -7,12 +7,16 @@ import (
 
 // EqdC is an Equidistant Conic projection.
 func EqdC(this *SR) (forward, inverse Transformer, err error) {
+	// A missing second parallel defaults to the first one. This has to come
+	// before the check below: this function runs for every transformed point
+	// on the shared SR, and checking first would let the first call through
+	// (NaN compares false) and fail all later ones.
+	if math.IsNaN(this.Lat2) {
+		this.Lat2 = this.Lat1
+	}
 	// Standard Parallels cannot be equal and on opposite sides of the equator
 	if math.Abs(this.Lat1+this.Lat2) < epsln {
 		return nil, nil, fmt.Errorf("proj: Equidistant Conic parallels cannot be equal and on opposite sides of the equator but are %g and %g", this.Lat1, this.Lat2)
-	}
-	if math.IsNaN(this.Lat2) {
-		this.Lat2 = this.Lat1
 	}
 
 	temp := this.B / this.A
